@@ -151,8 +151,10 @@ pub fn state_tables(st: &J) -> J {
 
 /// Checks that the bytes on the medium, read on their own, give `want`: once through a fresh
 /// Package::open of a copy, once through the independent decoder.
-pub fn check_bytes(sess: &Session, want: &J) -> Result<(), (&'static str, String)> {
-    let bytes = sess.med.snap();
+/// `durable`: look only at what the medium held at its last flush() (after a successful
+/// Package::flush that is everything: the medium may defer writes until it is flushed).
+pub fn check_bytes(sess: &Session, want: &J, durable: bool) -> Result<(), (&'static str, String)> {
+    let bytes = if durable { sess.med.snap_durable() } else { sess.med.snap() };
     let mut s2 = Session::empty();
     s2.med = crate::media::Medium::new(bytes.clone());
     let r = std::panic::catch_unwind(std::panic::AssertUnwindSafe(|| msi::Package::open(s2.med.handle())));
@@ -286,7 +288,8 @@ pub fn run_edge(edge: &J, want_trace: bool) -> (Option<Viol>, Vec<J>) {
     }
     if edge["clean"].as_bool().unwrap_or(false) {
         // a clean point: the bytes on the medium right now must already hold everything
-        if let Err((k, e)) = check_bytes(&sess, &want) {
+        let after_flush = ev["op"] == "Flush" && ev["res"] == "Ok";
+        if let Err((k, e)) = check_bytes(&sess, &want, after_flush) {
             return (Some(Viol { kind: k, what: format!("after {}: {}", ev["op"], e), detail: json!({}) }), trace);
         }
     }
